@@ -1,7 +1,7 @@
 #!/venv/bin/python
 """C05, fourth strengthening round: SCALE, IDENTIFIER SPELLINGS and DEFAULTS / ENTRY POINTS of let substitution.
 
-    PYTHONPATH=/verif /venv/bin/python /verif/harness/agents/c05_scale.py [--seed 0] [--n 260] [--thorough]
+    PYTHONPATH=/verif /venv/bin/python /verif/harness/agents/c05_scale.py [--seed 0] [--n 150] [--thorough]
 
 Oracles only (`corr` is empty).  A case is a small SPEC (stream, dimension, size, a random seed) from which the program is
 rebuilt deterministically (so a 1000-statement / depth-257 program never has to be stored), a list of override
@@ -21,7 +21,8 @@ streams
               lets         number of declared constants (plain, dotted, look-alike pairs c7 / cal.c7), override dictionaries
                            over every 2nd / the first / the last / the upper half / all of them
               aliases      number of map aliases over the register (single qubits, slices, whole) with constant bounds
-              chain        length of a chain of aliases of aliases with constant starts / steps (<= 130)
+              chain        length of a chain of aliases of aliases with constant starts / steps (<= 130; the library is cubic
+                           in it: the quick tier stops at 66, the thorough tier runs 100 .. 130)
               macros       number of macros whose bodies use constants;  mchain: depth of a chain of macros calling macros
                            with parameters that shadow constants half-way
               params/args  number of macro parameters (some shadowing constants) / of arguments of one gate
@@ -31,7 +32,8 @@ streams
               emu          registers of 10 .. 14 qubits through the real emulator (X on constant qubits, constant loop
                            count) against the closed form and against the program with literals
   ident     the fixed one-constant-per-position program of c05_edge (17 constants) and generated programs, with EVERY
-            identifier (constants, register, aliases, macros, macro parameters, gates) respelt through an injective renaming:
+            identifier (constants, register, aliases, macros, macro parameters, gates) respelt through an injective renaming,
+            and "family" programs whose 20 .. 30 constants ALL belong to one look-alike family, about half of them overridden:
             look-alike families over one base (x, cal.x, x.cal, cal.x.x, ns.cal.x, __x, x__, __x__, _x, X, x.0, x0 ..),
             prefixes / extensions of keywords (le, lets, let.x, loo, loops, ma, reg, sub, fro ..), of prepare_all /
             measure_all, the builder's S-expression tags (gate, circuit, sequential_block, array_item, ..), anonymous
@@ -45,7 +47,8 @@ streams
 
 oracle (names as in c05_edge.py)
   no_constant_left        no gate argument, qubit index, register size, alias bound, loop count or subcircuit count of the
-                          result (body, macro bodies, registers, and the registers the qubits of the body belong to) is a Constant
+                          result (body, macro bodies, registers, the registers the qubits of the body belong to, and the macro
+                          definition each call statement of the result is bound to) is a Constant
   value_exact             every such position holds exactly the value of ITS constant in the chosen environment, every qubit
                           resolves to the fundamental index the reference computes within the new register size, every alias
                           denotes the progression the reference computes; macro parameters are left alone
@@ -83,7 +86,7 @@ L, I = E.L, E.I
 
 def _imports():
     global np, T, GATES, parse_jaqal_string, parse_jaqal_file, fill_in_let, expand_macros, JaqalError
-    global GateStatement, BlockStatement, LoopStatement, Parameter, Constant, NamedQubit, Register, GateDefinition, ParamType
+    global GateStatement, BlockStatement, LoopStatement, Parameter, Constant, NamedQubit, Register, GateDefinition, ParamType, Macro
     E._imports()
     import numpy as np
     from harness import timeouts as T
@@ -96,6 +99,7 @@ def _imports():
     from jaqalpaq.core.constant import Constant
     from jaqalpaq.core.register import NamedQubit, Register
     from jaqalpaq.core import GateDefinition
+    from jaqalpaq.core.macro import Macro
     from jaqalpaq.error import JaqalError
 
 
@@ -375,8 +379,19 @@ def impl_arg(v, consts, regname):
     return E.impl_num(v, consts, "gate argument")
 
 
+_SEEN = {}
+
+
 def impl_stmt(s, consts, regname):
     if isinstance(s, GateStatement):
+        gd = getattr(s, "gate_def", None)
+        if isinstance(gd, Macro) and id(gd) not in _SEEN:
+            # the definition a call is bound to belongs to the result as well (walkers follow it): no constant there either
+            _SEEN[id(gd)] = gd
+            sub = []
+            impl_stmt(gd.body, sub, regname)
+            consts.extend(x if "a call of the result is bound to" in x else
+                          f"{x} (in the definition of {gd.name} a call of the result is bound to)" for x in sub)
         return ("g", s.name, tuple([impl_arg(v, consts, regname) for v in s.parameters.values()]))
     if isinstance(s, LoopStatement):
         return ("l", E.impl_num(s.iterations, consts, "loop count"), impl_stmt(s.statements, consts, regname))
@@ -400,6 +415,7 @@ def lighten(regs, light):
 
 
 def impl_tree(c, regname):
+    _SEEN.clear()
     consts = []
     regs = []
     light = light_names(c.registers)
@@ -459,7 +475,7 @@ DIM_SIZES = {
 }
 DIMS = list(DIM_SIZES)
 # what a dimension costs per case grows with the size: the quick tier samples the big ones less often
-HEAVY = {"chain": 66, "emu": 13, "history": 65, "aliases": 257}
+HEAVY = {"chain": 40, "emu": 13, "history": 65, "aliases": 257}
 
 
 def _mk(lets, size, maps, macros, body, mode="gates", **kw):
@@ -474,11 +490,11 @@ def _names(mode):
     return ("X", "PF", "P") if mode == "gates" else ("Ga", "Gb", "Gc")
 
 
-def b_statements(s, rng):
+def b_statements(s, rng, forced=None):
     mode = "gates" if rng.random() < 0.65 else "nogates"
     GX, GPF, GP = _names(mode)
     loc = rng.choice(["top", "top", "loop", "sub", "macro", "par", "inner", "loop"])
-    pat = rng.choice(["none", "none", "none", "first", "middle", "last", "all", "sparse"])
+    pat = forced or rng.choice(["none", "none", "none", "first", "middle", "last", "all", "sparse"])
     lets = [("n", 6), ("a", 1), ("e", 5), ("k", 1), ("th", 0.5), ("c", 2)]
     which = rng.choice(["size", "alias", "both", "both"])
     size = I("n") if which in ("size", "both") else L(6)
@@ -492,7 +508,8 @@ def b_statements(s, rng):
         maps.append(["b", "slice", "al", L(0), L(2), None])
     has_q1 = rng.random() < 0.3
     if has_q1:
-        maps.append(["q1", "single", "r", I("k") if rng.random() < 0.5 else L(2)])
+        # (a qubit alias with a constant index is itself a mention of a constant wherever it is used)
+        maps.append(["q1", "single", "r", I("k") if (rng.random() < 0.5 and pat != "none") else L(2)])
     edge_last = rng.random() < 0.6
 
     def lit(i):
@@ -533,7 +550,7 @@ def b_statements(s, rng):
     elif loc == "loop":
         body = [g(GX, q("r", L(0))), ["loop", cnt, ["seq", stmts]]]
     elif loc == "sub":
-        body = [["sub", rng.choice([I("c"), None, L(2)]), stmts], g(GX, q("r", I("k")))]
+        body = [["sub", rng.choice([I("c"), None, L(2)] if pat != "none" else [None, L(2)]), stmts], g(GX, q("r", I("k")))]
     elif loc == "macro":
         macros = [["M", ["x"], ["seq", stmts + [g(GX, I("x"))]]]]
         body = [g("M", q("r", L(0))), ["loop", cnt, ["seq", [g("M", q("al", L(0)))]]]]
@@ -835,8 +852,11 @@ def build_scale(spec):
     rng = random.Random(f"c05_scale/{spec['dim']}/{spec['size']}/{spec['rs']}")
     dim, s = spec["dim"], spec["size"]
     if dim in ("statements", "depth", "aliases", "chain", "macros", "mchain", "params", "args"):
-        prog, cand, pri, feat = {"statements": b_statements, "depth": b_depth, "aliases": b_aliases, "chain": b_chain, "macros": b_macros,
-                                 "mchain": b_mchain, "params": b_params, "args": b_args}[dim](s, rng)
+        if dim == "statements":
+            prog, cand, pri, feat = b_statements(s, rng, spec.get("pat"))
+        else:
+            prog, cand, pri, feat = {"depth": b_depth, "aliases": b_aliases, "chain": b_chain, "macros": b_macros,
+                                     "mchain": b_mchain, "params": b_params, "args": b_args}[dim](s, rng)
         declared = dict((k, E.dec(v)) for k, v in prog["lets"])
         steps = [pick_overrides(rng, cand, pri, declared)]
         if rng.random() < 0.35:
@@ -1043,15 +1063,50 @@ def finite_steps(steps):
     return out
 
 
+def build_family(rng, scheme):
+    """every constant of the program is a member of ONE look-alike family (or an odd spelling); each is used as a gate
+    argument, the integer ones also as index / loop count; about half of them are overridden"""
+    if scheme == "odd":
+        names = rng.sample(ODD, 30)
+    else:
+        fam = lookalikes(rng.choice(["x", "n", "q", "th", "cal", "r", "a", "k"]))
+        names = fam[:7] + rng.sample(fam[7:], 14) + (rng.sample(ODD, 8) if scheme == "mixed" else [])
+        names = _uniq(names)
+    rng.shuffle(names)
+    k = len(names)
+    vals = [(i + 0.5) if i % 3 == 2 else (i * 7 + i // 4) % 4 for i in range(k)]
+    ints = [i for i in range(k) if i % 3 != 2]
+    GPF, GP = rng.choice([("PF", "P"), ("cal.PF", "cal.P"), ("__PF", "P__")])
+    R = next(x for x in ("cal.r", "r", "cal.reg", "zz.r") if x not in names)
+    body = []
+    for i in range(k):
+        j = ints[(i * 5 + 1) % len(ints)]
+        st = g(GPF, num(I(names[i])), q(R, I(names[j])))
+        if i % 6 == 5:
+            st = ["loop", I(names[j]), ["seq", [st, g(GP, q(R, L(0)), num(I(names[ints[(i * 3) % len(ints)]])))]]]
+        body.append(st)
+    macros = [["cal.M", [names[0], "y"], ["seq", [g(GPF, num(I(names[0])), I("y")), g(GPF, num(I(names[1])), I("y"))]]]]
+    body.append(g("cal.M", num(I(names[2])), q(R, I(names[ints[0]]))))
+    prog = _mk(list(zip(names, vals)), L(4), [], macros, body, "gates", reg=R, sig={GPF: "fq", GP: "qi"})
+    ov = {}
+    for i in range(k):
+        if rng.random() < 0.45:
+            ov[names[i]] = vals[i] + 0.25 if i % 3 == 2 else (vals[i] + 1 + i % 2) % 4
+    return prog, [ov_enc(ov)]
+
+
 def build_ident(spec):
     rng = random.Random(f"c05_scale/ident/{spec['rs']}")
     base = spec["base"]
+    if base == "family":
+        prog, steps = build_family(rng, spec["scheme"])
+        return prog, steps, {"renaming": spec["scheme"], "base program": base}
     if base == "roles":
         prog = mini_prog()
         steps = []
         for _ in range(rng.choice([1, 1, 2])):
             ov = {}
-            for k in rng.sample(list(MINI_CAND), rng.choice([1, 1, 2, 3, 5])):
+            for k in rng.sample(list(MINI_CAND), rng.choice([1, 2, 3, 5, 8])):
                 ov[k] = rng.choice(MINI_CAND[k])
             steps.append(ov)
         steps = [ov_enc(o) for o in steps]
@@ -1080,6 +1135,8 @@ def build_defaults(spec):
         case = E.gen_random(rng, 0, False)
         prog = case["prog"]
         steps = finite_steps(case["steps"])[:1]
+    if spec.get("nothing"):
+        steps = [[]]
     prog = dict(prog)
     prog["usepulses"] = rng.choice([0, 1, 1, 2, 3])
     # value kinds
@@ -1231,11 +1288,16 @@ def run_case(case, rec, dist):
             dist["override dictionary size: " + bucket(len(raw))] += 1
             entry = entry0 if (si == 0 or entry0 in FILL_ENTRIES) else "fill"
             dist["entry: " + entry + (" (nothing to override: " + emptyv + ")" if not ov else "")] += 1
+            ref = None
             try:
                 ref = Ref(prog, env)
                 want = ("ok", ref.tree())
             except Invalid as e:
                 want = ("invalid", str(e), e.nonfinite)
+                if ref is not None and entry == "parse_macro" and prog["macros"]:
+                    # expand_macro runs first: an argument of a call that the macro never uses is gone before the constants
+                    # are looked at (only what is wrong in the header is wrong whatever the order)
+                    want = ("grey", "expand_let + expand_macro: invalid in the body of a program with macros")
                 ref = None
             except Grey as e:
                 want = ("grey", str(e))
@@ -1281,6 +1343,7 @@ def run_case(case, rec, dist):
                     # call-by-value meaning (the statement-wise reference above does not look into calls)
                     try:
                         ref.run()
+                        Ref(prog, decl).run()       # … and expand_macro sees the DECLARED values (it runs before the overrides apply)
                     except (Grey, Invalid, RecursionError) as e:
                         dist["expand_let + expand_macro refused, no call-by-value meaning: " + str(e).split(":")[0][:40]] += 1
                         continue
@@ -1428,10 +1491,11 @@ def scale_entry(rng, dim):
 def gen_cases(seed, n, thorough):
     rng = random.Random(f"c05_scale:{seed}")
     cases = []
-    k_scale = max(len(DIMS), int(round(n * 0.5)))
-    k_ident = max(6, int(round(n * 0.32)))
-    k_def = max(6, int(round(n * 0.18)))
-    cyc = DIMS + ["statements", "statements", "lets"]
+    k_scale = max(len(DIMS), int(round(n * 0.48)))
+    k_ident = max(6, int(round(n * 0.3)))
+    k_def = max(6, int(round(n * 0.22)))
+    seen = Counter()
+    cyc = DIMS + ["statements", "statements", "lets", "statements"]
     rot = rng.randrange(len(cyc))
     for i in range(k_scale):
         dim = cyc[(i + rot) % len(cyc)]
@@ -1440,21 +1504,34 @@ def gen_cases(seed, n, thorough):
             # the expensive sizes once per run (the first case of the dimension), the others below the cut
             first = not any(c["spec"]["dim"] == dim for c in cases)
             sizes = [s for s in sizes if (s > HEAVY[dim]) == first] or sizes
+            if dim == "chain" and first:
+                sizes = [65, 66]                    # cubic in the library: 100 .. 130 in the thorough tier only
         if not thorough and dim == "emu" and i >= 2 * len(cyc):
             dim = "statements"                      # two emulator runs are enough for the quick tier
             sizes = [199, 200, 201, 255, 256, 257, 300, 1000]
+        j = seen[dim]
+        seen[dim] += 1
+        if j % 2 == 0 and dim == "statements":
+            sizes = [199, 200, 201, 255, 256, 257, 300, 1000]
+        elif j % 2 == 0 and dim == "namelen":
+            sizes = [255, 256, 257, 300, 1000]
+        elif j % 2 == 0 and len(sizes) > 4:
+            sizes = sizes[len(sizes) // 2:]         # every other case of a dimension in the upper half of its sizes
         s = rng.choice(sizes)
-        cases.append({"id": f"scale-{dim}-{s}-{seed}-{i}", "spec": {"kind": "scale", "dim": dim, "size": s, "rs": rng.randrange(1 << 30)},
-                      "entry": scale_entry(rng, dim), "empty": rng.choice(EMPTY)})
+        spec = {"kind": "scale", "dim": dim, "size": s, "rs": rng.randrange(1 << 30)}
+        if dim == "statements":
+            if j % 2 == 0:                          # the long blocks: half of them mention no constant at all
+                spec["pat"] = ("none", "none", "last", "none", "middle", "none", "all", "none", "first", "sparse")[(j // 2) % 10]
+        cases.append({"id": f"scale-{dim}-{s}-{seed}-{i}", "spec": spec, "entry": scale_entry(rng, dim), "empty": rng.choice(EMPTY)})
     for i in range(k_ident):
-        cases.append({"id": f"ident-{seed}-{i}", "spec": {"kind": "ident", "base": ("roles", "random", "random")[i % 3],
+        cases.append({"id": f"ident-{seed}-{i}", "spec": {"kind": "ident", "base": ("roles", "random", "family")[i % 3],
                                                           "scheme": ("lookalike", "lookalike", "odd", "mixed")[(i // 3) % 4], "rs": rng.randrange(1 << 30)},
                       "entry": rng.choice(["fill", "fill", "parse", "parse", "fill_kw", "parse_up", "parse_file", "parse_macro", "parse_map"]),
                       "empty": rng.choice(EMPTY)})
     allent = FILL_ENTRIES + PARSE_ENTRIES
     for i in range(k_def):
-        cases.append({"id": f"defaults-{seed}-{i}", "spec": {"kind": "defaults", "rs": rng.randrange(1 << 30)}, "entry": allent[i % len(allent)],
-                      "empty": EMPTY[(i // len(allent)) % 3]})
+        cases.append({"id": f"defaults-{seed}-{i}", "spec": {"kind": "defaults", "rs": rng.randrange(1 << 30), "nothing": int(i % 3 == 0)},
+                      "entry": allent[(i + i // 21) % len(allent)], "empty": EMPTY[(i // 3) % 3]})
     if thorough:
         # the whole grid: every dimension x every size
         for dim in DIMS:
@@ -1483,10 +1560,11 @@ def run(seed: int, n: int, driver: str = DEFAULT_DRIVER, thorough: bool = False)
         def rec(name, ok, detail="", case=case):
             o = oracle.setdefault(name, {"cases": 0, "failures": []})
             o["cases"] += 1
-            if not ok and len(o["failures"]) < 20:
-                o["failures"].append({"case": slim(case), "detail": detail[:1500]})
-            elif not ok:
-                o["failures"].append(None)
+            if not ok:
+                # at most two failures per case and oracle (a history of 130 steps must not hide the other cases)
+                mine = sum(1 for x in o["failures"] if x["case"]["id"] == case["id"])
+                if mine < 2 and len(o["failures"]) < 40:
+                    o["failures"].append({"case": slim(case), "detail": detail[:1500]})
         sp = case["spec"]
         dist["stream: " + sp["kind"]] += 1
         if sp["kind"] == "scale":
@@ -1495,7 +1573,7 @@ def run(seed: int, n: int, driver: str = DEFAULT_DRIVER, thorough: bool = False)
         run_case(case, rec, dist)
         nontrivial.add(json.dumps(case["spec"], sort_keys=True) + case["entry"])
     for v in oracle.values():
-        v["failures"] = [x for x in v["failures"] if x is not None][:20]
+        v["failures"] = v["failures"][:20]
     samples = []
     seen = set()
     for c in cases:
@@ -1532,7 +1610,7 @@ def main():
     ap = argparse.ArgumentParser()
     ap.add_argument("--driver", default=DEFAULT_DRIVER)
     ap.add_argument("--seed", type=int, default=0)
-    ap.add_argument("--n", type=int, default=260)
+    ap.add_argument("--n", type=int, default=150)
     ap.add_argument("--thorough", action="store_true")
     ap.add_argument("--dist", action="store_true")
     a = ap.parse_args()
